@@ -66,8 +66,9 @@ def case_strategy(draw, ctx):
                 faces[f"{side}_{an}"] = {"kind": draw(st.sampled_from(["none", "pec", "pmc"]))}
             m.append(1)
     grid = draw(scenes.grid_strategy(shape, faces, kinds=("uniform", "uniform", "rect")))
-    eps_tier = draw(st.sampled_from(["iso", "iso", "diag", "diag", "full"]))
-    mu_tier = draw(st.sampled_from(["none", "none", "iso", "diag", "diag", "full"]))
+    full = draw(st.integers(0, 4)) == 0  # full tensors cost 5-10x (compile + 3x3 solves): one case in five
+    eps_tier = draw(st.sampled_from(["iso", "diag", "diag"] + (["full"] * 3 if full else [])))
+    mu_tier = draw(st.sampled_from(["none", "iso", "diag", "diag"] + (["full"] * 2 if full else [])))
     spec = {
         "shape": shape,
         "steps": draw(st.integers(10, 15 if "full" in (eps_tier, mu_tier) else 25)),
@@ -149,13 +150,22 @@ def supercell_spec(spec, m):
     return s
 
 
-def jitted_step(built):
-    """The real `forward` step under jax.jit (as in production runs; eager full-tensor steps cost ~1 s each)."""
+def run_steps(built, arrays, steps):
+    """`steps` real `forward` steps under one jax.jit(lax.scan); returns E, H after every step, shape
+    (steps, 3, nx, ny, nz).  (Eager calls compile every primitive per shape and a full-tensor eager step costs about
+    a second; a jitted single step costs 50-150 ms per call in pytree handling alone.)"""
     import jax
+    import jax.numpy as jnp
     from fdtdx.fdtd.forward import forward
 
-    return jax.jit(lambda state: forward(state, built.config, built.objects, built.key, record_detectors=False,
-                                         record_boundaries=False, simulate_boundaries=True))
+    def one(state, _):
+        new = forward(state, built.config, built.objects, built.key, record_detectors=False,
+                      record_boundaries=False, simulate_boundaries=True)
+        return new, (new[1].fields.E, new[1].fields.H)
+
+    state = (jnp.asarray(0, dtype=jnp.int32), arrays)
+    Es, Hs = jax.jit(lambda st_: jax.lax.scan(one, st_, None, length=steps)[1])(state)
+    return np.asarray(Es), np.asarray(Hs)
 
 
 def body(ctx, case):
@@ -238,24 +248,19 @@ def body(ctx, case):
     ctx.nontrivial(len(nz_phase) >= 1 or len(per_axes) >= 2)
 
     tol = ctx.tol(1e-9, 2e-4)
-    step_small, step_big = jitted_step(small), jitted_step(big)
-    s_small = (jnp.asarray(0, dtype=jnp.int32), a_small)
-    s_big = (jnp.asarray(0, dtype=jnp.int32), a_big)
+    hist_small = run_steps(small, a_small, spec["steps"])
+    hist_big = run_steps(big, a_big, spec["steps"])
     for t in range(spec["steps"] + 1):
-        for name in ("E", "H"):
-            f = np.asarray(getattr(s_small[1].fields, name))
-            F = np.asarray(getattr(s_big[1].fields, name))
+        for n, name in enumerate(("E", "H")):
+            f = (E0, H0)[n] if t == 0 else hist_small[n][t - 1]
+            F = np.asarray(getattr(a_big.fields, name)) if t == 0 else hist_big[n][t - 1]
             ctx.check(bool(np.isfinite(f).all() and np.isfinite(F).all()), f"non-finite {name} at step {t}")
             ctx.close(F, tiled(f), tol=tol, scale=max(float(np.abs(f).max()), 1e-30),
                       msg=f"supercell {name} differs from the tiled cell after {t} steps", metric=f"{name}_err")
-        if t == spec["steps"]:
-            break
-        s_small = step_small(s_small)
-        s_big = step_big(s_big)
 
 
 SUBS = [
-    Sub(name="supercell", body=body, strategy=lambda ctx: case_strategy(ctx), quick=16, thorough=1500,
+    Sub(name="supercell", body=body, strategy=lambda ctx: case_strategy(ctx), quick=12, thorough=1200,
         lanes=("f64", "f32"), f32_fraction=0.25, quick_shards=2,
         rule="periodic/Bloch cell vs tiled supercell, every copy, every step"),
 ]
